@@ -34,7 +34,8 @@ def _kernel_cases(ds, rng, tag):
     area = [rng.randint(1, 4) for _ in range(n)]
     yield {"k": 1001, "args": [ds, outs, sq, area], "group": f"{tag}-ucat_area"}
     hand = [rng.randint(0, 3) for _ in range(n)]
-    yield {"k": 1002, "args": [ds, outs, sq, hand, area, [1, 2, 4]], "group": f"{tag}-ucat_volume"}
+    depths = rng.choice([[1, 2, 4], [4, 2, 1], [2, 4, 1], [3], [0, 5, 2]])      # also unsorted depth lists
+    yield {"k": 1002, "args": [ds, outs, sq, hand, area, depths], "group": f"{tag}-ucat_volume"}
     from props_c08 import _uparea, _main
     for direction in ("down", "up"):
         nxt = ds if direction == "down" else _main(ds, _uparea(ds), 0)
